@@ -108,6 +108,7 @@ pub fn run(c: &Case) -> Outcome {
     if c.extra_pulls {
         pulls.extend([
             (Pull::Fixed(1), false),
+            (Pull::Convenience, false),
             (Pull::BufRead, false),
             (Pull::Fixed(8191), true),
         ]);
@@ -150,6 +151,15 @@ pub fn run(c: &Case) -> Outcome {
                             rb.created,
                             rb.is_binary_mode
                         ),
+                    );
+                }
+                // what was asked for is what was made: text-mode signatures when sign_text was
+                // requested, binary ones otherwise
+                let want_type = if cfg.text { 0x01u8 } else { 0x00 };
+                if rb.sig_types.iter().any(|t| *t != want_type) {
+                    o.push(
+                        "C01:signature-type-differs-from-request",
+                        format!("{} n={}: signature types {:?}, requested {want_type:#04x}", cfg_sig(cfg), c.n, rb.sig_types),
                     );
                 }
                 if rb.sig_valid.len() != cfg.signers.len() || rb.sig_valid.iter().any(|v| !v) {
@@ -262,7 +272,7 @@ pub fn check(ctx: &Ctx) {
     ctx.run_space(
         "spine_x_every_length",
         true,
-        &format!("full product source{{bytes,reader}} x compression{{none,zip,zlib,bzip2}} x {{plain, SEIPDv1-AES128, SEIPDv2-AES128-OCB-64B}} x signers{{0,1,2}} x {{binary, utf8+text-sig}} x armor{{off,on}} = {} configurations (partial chunk 512) x every payload length 0..={nmax}; build -> parse -> decrypt(password) -> decompress -> read_to_end -> verify; every 64th length also with 1-byte reads, BufRead, 8191-byte reads + raw session key and an unrelated key", spine.len()),
+        &format!("full product source{{bytes,reader}} x compression{{none,zip,zlib,bzip2}} x {{plain, SEIPDv1-AES128, SEIPDv2-AES128-OCB-64B}} x signers{{0,1,2}} x {{binary, utf8+text-sig}} x armor{{off,on}} = {} configurations (partial chunk 512) x every payload length 0..={nmax}; build -> parse -> decrypt(password) -> decompress -> read_to_end -> verify; every 64th length also with 1-byte reads, as_data_vec, BufRead, 8191-byte reads + raw session key and an unrelated key", spine.len()),
         spine.par_iter().flat_map(|cfg| {
             lens.par_iter().map(move |&n| Case {
                 cfg: cfg.clone(),
@@ -486,6 +496,22 @@ pub fn check(ctx: &Ctx) {
             }
         }
     }
+    // the builder options set BEFORE the transition to an encrypting builder (source + 10)
+    for n in [0usize, 1, 100, 600, 5000] {
+        for enc in [Enc::V1(7), Enc::V2(7, 2, 0), Enc::V2(9, 1, 6)] {
+            for source in [10u8, 11] {
+                for (compression, signers, text) in [(0u8, 1usize, false), (0, 1, true), (2, 1, true), (1, 0, false), (0, 2, true)] {
+                    let mut cfg = base(enc);
+                    cfg.source = source;
+                    cfg.compression = compression;
+                    cfg.text = text;
+                    cfg.partial_exp = 10;
+                    cfg.signers = [(KeyKind::Ed25519V4, 0u8), (KeyKind::Ed25519V6, 1)][..signers].to_vec();
+                    sweep.push(Case { cfg, n, extra_pulls: n == 100, v1_streaming: false });
+                }
+            }
+        }
+    }
     // armor checksum off, file source
     for n in [0usize, 1, 47, 48, 49, 511, 512, 513, 2000] {
         for enc in [Enc::None, Enc::V1(7), Enc::V2(7, 2, 0)] {
@@ -516,7 +542,7 @@ pub fn check(ctx: &Ctx) {
     ctx.run_space(
         "dimension_sweeps",
         true,
-        "each remaining builder dimension swept completely against a base configuration: 11 CFB ciphers; 3 ciphers x 3 AEAD modes x chunk-size octets (quick <= 64 KiB, thorough all 17) with lengths around 0..3 chunks; partial chunk sizes 2^9..2^16 (thorough 2^20) with lengths k*chunk + header-size offsets; 10 signer key kinds x hashes x binary/text; 3 mixed-version signers; ESK sets (each public-key algorithm addressed/anonymous, 1..3 passwords x 3 salted S2K kinds, v3/v4 and v6 forms); from_file source; armor with and without checksum",
+        "each remaining builder dimension swept completely against a base configuration: 11 CFB ciphers; 3 ciphers x 3 AEAD modes x chunk-size octets (quick <= 64 KiB, thorough all 17) with lengths around 0..3 chunks; partial chunk sizes 2^9..2^16 (thorough 2^20) with lengths k*chunk + header-size offsets; 10 signer key kinds x hashes x binary/text; 3 mixed-version signers; ESK sets (each public-key algorithm addressed/anonymous, 1..3 passwords x 3 salted S2K kinds, v3/v4 and v6 forms); from_file source; armor with and without checksum; every option set before instead of after the seipd_v1 / seipd_v2 transition (text mode, compression, partial size, signers - the signatures must have the requested type)",
         sweep.into_par_iter(),
         run,
     );
